@@ -442,7 +442,7 @@ func discharge(obls []*Obligation, opt dischargeOpts) {
 			defer wg.Done()
 			defer func() { <-sem }()
 			body := scriptFor(o)
-			if len(body) > 1500*1024 {
+			if len(body) > 6000*1024 {
 				o.Result = "error"
 				o.Output = fmt.Sprintf("script of %d bytes exceeds the size cap; split %s", len(body), o.Func)
 				return
